@@ -63,6 +63,9 @@ func (s *Solver) Init() {
 	s.send("(set-option :print-success false)")
 	s.send("(set-option :produce-models true)")
 	s.send("(set-option :global-declarations true)")
+	if s.TimeoutS > 0 {
+		s.send(fmt.Sprintf("(set-option :timeout %d)", s.TimeoutS*1000))
+	}
 	s.send("(set-logic QF_UFBV)")
 }
 
